@@ -228,6 +228,7 @@ def check_all(ctx, P):
     ctx.guard("stream", "input", lambda: check_input(ctx, P))
     from . import polybounds
     ctx.guard("bounds", "poly1305", lambda: polybounds.check(ctx, P))
+    ctx.guard("poly-identity", "poly1305", lambda: polybounds.check_identity(ctx, P))
 
 
 def run(ctx):
@@ -240,4 +241,5 @@ def run(ctx):
     ctx.trusted.append("ssa term evaluator transfer functions (cxsa/ssa.py) and the radix-weight rules (cxsa/radix.py)")
     from . import polybounds
     ctx.guard("bounds", "poly1305", lambda: polybounds.check(ctx, P))
+    ctx.guard("poly-identity", "poly1305", lambda: polybounds.check_identity(ctx, P))
     ctx.not_decided += ["the tag as a number beyond: radix-weight consistency of every product / carry, limb bounds (inductive), absence of overflow, digit reduction before the repack, clamp and select rules"]
